@@ -212,6 +212,7 @@ PerOK(p) ==
     /\ ("eo" \in DOMAIN p =>            \* edges(a) / edges_directed(a, Outgoing)
           IF kind = "list" THEN p.eo = [i \in 1 .. Len(Row(a)) |-> ETriple(Row(a)[i])]
           ELSE LET f(e) == At(e, a, 0) IN SeqBag(p.eo) = BagOf(f, Out(a)))
+    /\ ("eo2" \in DOMAIN p => LET f(e) == At(e, a, 0) IN SeqBag(p.eo2) = BagOf(f, Out(a)))       \* edges(a): a is the source
     /\ ("ei" \in DOMAIN p => LET f(e) == At(e, a, 1) IN SeqBag(p.ei) = BagOf(f, In(a)))
     /\ ("deg" \in DOMAIN p => p.deg = Cardinality(Out(a)))
     /\ ("nw" \in DOMAIN p => p.nw = nodes[a])
